@@ -1,4 +1,5 @@
 import MLPE.Proofs.EngTasks
+import MLPE.Proofs.OneDemo
 
 /-!
 # C10 — one-of yields the first successful candidate, lazily, and contains failures
@@ -13,9 +14,22 @@ General facts of the engine model, local to `_run_oneof` (every program, every s
 * when every candidate failed: nested → the head gets `OneOfDoesNotHaveResultError` as its (contained)
   result and the enclosing scope is notified; top level → `run()` is woken and the one-of task fails with it
   (`C10_all_failed`).
-First-success *semantics* (value of the candidate, containment of its failures) for private candidates under
-all schedules is tied by lock-step and checked by the `Sem` monitors; the shapes where the real engine leaks
-(nested one-of inside a candidate, switch inside a candidate) are findings (DESIGN §5).
+**Pipelines with switches and one-ofs (any nesting, no recurrent subgraph), all schedules — safety**
+(theorems at the end of the file, from the invariant of `Proofs/Safe.lean`): for every solution `val` of the dataflow
+equations in which a one-of head has the value of the first candidate, in declared order, that has one
+(`SolutionOne`), in every reachable state
+* the value stored for a one-of head is that first candidate's value (`C10_head_value_is_first_success`), every stored
+  value and every body argument is the semantic one (`C10_results_agree`, `C10_body_arguments`);
+* a failure stored inside a one-of scope belongs to a node that has no value (`C10_contained_failure_has_no_value`), and
+  no consumer body is ever invoked with such an object (`C10_body_arguments`: the arguments are the dataflow values);
+* a returned value is the output's (`C10_returned_value`); an error outcome has a cause, which for
+  `OneOfDoesNotHaveResultError` means that no candidate has a value (`C10_error_has_cause`);
+* laziness: a started node is needed — for a candidate: every earlier candidate of its one-of has no value
+  (`C10_only_needed_nodes_run`, `C10_unneeded_node_never_runs`).
+The key lemma is `hasError_none`: *an exception stored for any node of a candidate's reduced DAG means the candidate has
+no value* — true because every node of a reduced DAG reaches its destination along dependency edges
+(`GraphReach.between_sound`) and neither case edges nor candidate→head edges are such edges (repo fix cd71782; before
+it, the lemma was false and the real engine returned the second candidate's value).  Termination is not a theorem here.
 -/
 namespace MLPE.Eng
 open MLPE
@@ -75,5 +89,172 @@ theorem C10_unopened_candidate_invisible (P : Program) (s : St) (u : Node)
 
 /-- opening is per run: the initial state of every run has nothing opened (fix: no write to the shared DAG) -/
 theorem C10_fresh_run_nothing_opened (u : Node) : init.opened u = false := rfl
+
+/-! ### Pipelines with switches and one-ofs: safety in every reachable state, under every schedule -/
+
+variable {val : Node → Option Val}
+
+/-- **every stored value is the value the dataflow semantics assigns to its node** -/
+theorem C10_results_agree (P : Program) (val : Node → Option Val) (hone : OneP P) (hsol : SolutionOne P val)
+    (s : St) (h : Reach P s) (n : Node) (v : Val) (hr : s.res n = some v) (hne : v.isExc = false) :
+    val n = some v ∧ v.isRecur = false :=
+  ⟨(safe_reach hone hsol h).data.agree n v hr hne, (safe_reach hone hsol h).data.vals n v hr⟩
+
+/-- **the value of a one-of is the value of its first successful candidate**: whatever is stored for the synthetic head
+is the value of the first candidate, in declared order, that has a value in the dataflow semantics -/
+theorem C10_head_value_is_first_success (P : Program) (val : Node → Option Val) (hone : OneP P)
+    (hsol : SolutionOne P val) (s : St) (h : Reach P s) (hd : Node) (hh : P.g.isOneofHead hd = true) (v : Val)
+    (hr : s.res hd = some v) (hne : v.isExc = false) :
+    ∃ pre c post, cands P hd = pre ++ c :: post ∧ (∀ x ∈ pre, val x = none) ∧ val c = some v := by
+  have hv := (safe_reach hone hsol h).data.agree hd v hr hne
+  rw [hsol.head hd hh] at hv
+  obtain ⟨c, hc, hcv⟩ := List.exists_of_findSome?_eq_some hv
+  -- take the first candidate with a value
+  have key : ∀ (l : List Node), l.findSome? val = some v →
+      ∃ pre c post, l = pre ++ c :: post ∧ (∀ x ∈ pre, val x = none) ∧ val c = some v := by
+    intro l
+    induction l with
+    | nil => intro h0; cases h0
+    | cons a l ih =>
+      intro h0
+      simp only [List.findSome?] at h0
+      cases ha : val a with
+      | some w =>
+        rw [ha] at h0
+        simp only [Option.some.injEq] at h0
+        subst h0
+        refine ⟨[], a, l, rfl, ?_, ha⟩
+        intro x hx
+        cases hx
+      | none =>
+        rw [ha] at h0
+        obtain ⟨pre, c, post, h1, h2, h3⟩ := ih h0
+        refine ⟨a :: pre, c, post, by rw [h1]; rfl, ?_, h3⟩
+        intro x hx
+        rcases List.mem_cons.mp hx with rfl | hx
+        · exact ha
+        · exact h2 x hx
+  exact key _ hv
+
+/-- **failures are contained and never delivered as values**: an exception object stored as a node's result (inside a
+one-of scope) belongs to a node that has no value, and it has a cause -/
+theorem C10_contained_failure_has_no_value (P : Program) (val : Node → Option Val) (hone : OneP P)
+    (hsol : SolutionOne P val) (s : St) (h : Reach P s) (n : Node) (e : Exc) (hr : s.res n = some (.exc e)) :
+    val n = none ∧ ErrCause P val e :=
+  ⟨((safe_reach hone hsol h).data.excOK n e hr).1, ((safe_reach hone hsol h).data.excOK n e hr).2.1⟩
+
+/-- **every observed body call gets the dataflow values of its sources** — for a one-of parameter the value of the first
+successful candidate; all sources have values (so no argument is a stored failure), first and only invocation -/
+theorem C10_body_arguments (P : Program) (val : Node → Option Val) (hone : OneP P) (hsol : SolutionOne P val)
+    (s : St) (log : List Obs) (h : Exec P s log) (n inv k : Nat) (kw : Kwargs) (hb : Obs.body n inv k kw ∈ log) :
+    kw = kwFrom P val n ∧ (∀ p ∈ P.g.preds n, (val p).isSome = true) ∧ inv = 0 := by
+  have a : Att P val n k kw inv := (safe_exec hone hsol h).2 _ hb
+  refine ⟨a.kw_eq, ?_, a.inv0⟩
+  have := a.preds
+  rw [List.all_eq_true] at this
+  exact this
+
+/-- **a returned value is the dataflow value of the output node** -/
+theorem C10_returned_value (P : Program) (val : Node → Option Val) (hone : OneP P) (hsol : SolutionOne P val)
+    (s : St) (h : Reach P s) (v : Val) (ho : s.outcome = some (.value v)) (hne : v.isExc = false) :
+    val P.g.output = some v :=
+  ((safe_reach hone hsol h).data.out (.value v) ho).1 hne
+
+/-- **an error outcome has a cause**; for `OneOfDoesNotHaveResultError` raised by the engine for head `hd`: no candidate
+of `hd` has a value -/
+theorem C10_error_has_cause (P : Program) (val : Node → Option Val) (hone : OneP P) (hsol : SolutionOne P val)
+    (s : St) (h : Reach P s) (e : Exc) (ho : s.outcome = some (.error e) ∨ s.outcome = some (.raised e)) :
+    ErrCause P val e := by
+  rcases ho with ho | ho
+  · exact (safe_reach hone hsol h).data.out _ ho
+  · exact (safe_reach hone hsol h).data.out _ ho
+
+theorem C10_no_result_means_all_failed (P : Program) (val : Node → Option Val) (hsol : SolutionOne P val)
+    (hd : Node) (hh : P.g.isOneofHead hd = true) (hv : val hd = none) : ∀ c ∈ cands P hd, val c = none := by
+  rw [hsol.head hd hh] at hv
+  intro c hc
+  cases hcv : val c with
+  | none => rfl
+  | some w =>
+    have : ((cands P hd).findSome? val).isSome = true := by
+      rw [List.findSome?_isSome_iff]
+      exact ⟨c, hc, by rw [hcv]; rfl⟩
+    rw [hv] at this; cases this
+
+/-- **laziness**: a node that has been started is needed — the output, a source of a needed node, the decision node or
+selected case of a needed switch, or a candidate of a needed one-of **all of whose earlier candidates have no value**
+(launch orders being topological orders of their DAGs) -/
+theorem C10_only_needed_nodes_run (P : Program) (val : Node → Option Val) (hone : OneP P) (hsol : SolutionOne P val)
+    (s : St) (h : Reach P s) (hord : s.badOrd = false) (n : Node) (hp : s.proc n = true) : Demanded P val n := by
+  rcases (safe_reach hone hsol h).data.lazy with hb | hl
+  · rw [hord] at hb; cases hb
+  · exact hl n hp
+
+theorem C10_unneeded_node_never_runs (P : Program) (val : Node → Option Val) (hone : OneP P) (hsol : SolutionOne P val)
+    (s : St) (h : Reach P s) (hord : s.badOrd = false) (n : Node) (hn : ¬ Demanded P val n) : s.proc n = false := by
+  cases hp : s.proc n with
+  | false => rfl
+  | true => exact absurd (C10_only_needed_nodes_run P val hone hsol s h hord n hp) hn
+
+/-! Non-vacuity: `demoOne` (first candidate raises, second succeeds) satisfies `OneP` by evaluation of its Boolean form
+and has the solution `demoOneVal`; a complete run is exhibited — candidate `1` fails inside its one-of scope, candidate
+`2` is tried next, the consumer gets its value — and the theorems are applied to its final state. -/
+
+def runChoicesO (P : Program) : St → List Choice → Option St
+  | s, [] => some s
+  | s, c :: cs => match step P s c with
+    | some (s', _) => runChoicesO P s' cs
+    | none => none
+
+theorem reach_of_runO {P : Program} : ∀ (cs : List Choice) (s s' : St), Reach P s → runChoicesO P s cs = some s' → Reach P s'
+  | [], s, s', h, hr => by simp [runChoicesO] at hr; exact hr ▸ h
+  | c :: cs, s, s', h, hr => by
+    simp only [runChoicesO] at hr
+    split at hr
+    · next s1 obs hs => exact reach_of_runO cs s1 s' (.step h hs) hr
+    · cases hr
+
+def demoOneRun : List Choice :=
+  [.run 0 [] 0, .run 1 [0, 3, 4] 0, .run 2 [] 0, .gate 0 0 1, .run 2 [] 0, .run 1 [] 0,
+   .run 3 [] 0, .run 4 [1] 0, .run 5 [] 0, .gate 1 0 1, .run 5 [] 0, .run 3 [] 0,
+   .run 6 [2] 0, .run 7 [] 0, .gate 2 0 1, .run 7 [] 0, .run 3 [] 0, .run 1 [] 0, .run 8 [] 0, .gate 4 0 1, .run 8 [] 0,
+   .run 1 [] 0, .run 0 [] 0]
+
+example : ∃ s, runChoicesO demoOne init demoOneRun = some s ∧ Reach demoOne s ∧
+    (∃ e, s.res 1 = some (.exc e) ∧ demoOneVal 1 = none) ∧
+    (∃ v, s.res 3 = some v ∧ demoOneVal 3 = some v ∧ demoOneVal 2 = some v) ∧
+    ∃ v, s.outcome = some (.value v) ∧ demoOneVal demoOne.g.output = some v := by
+  have h : (runChoicesO demoOne init demoOneRun).isSome = true := by decide +kernel
+  obtain ⟨s, hs⟩ := Option.isSome_iff_exists.mp h
+  have hr := reach_of_runO demoOneRun init s .init hs
+  have fact : ∀ (f : St → Bool), ((runChoicesO demoOne init demoOneRun).map f) = some true → f s = true := by
+    intro f hf; rw [hs] at hf; simpa using hf
+  have h1 : ∃ e, s.res 1 = some (.exc e) := by
+    have := fact (fun s => match s.res 1 with | some (.exc _) => true | _ => false) (by decide +kernel)
+    cases hr1 : s.res 1 with
+    | none => simp [hr1] at this
+    | some w => cases w <;> simp [hr1] at this; exact ⟨_, rfl⟩
+  obtain ⟨e, he⟩ := h1
+  have h3 : ∃ v, s.res 3 = some v ∧ v.isExc = false := by
+    have := fact (fun s => match s.res 3 with | some v => !v.isExc | none => false) (by decide +kernel)
+    cases hr3 : s.res 3 with
+    | none => simp [hr3] at this
+    | some w => exact ⟨w, rfl, by simpa [hr3] using this⟩
+  obtain ⟨v3, hv3, hne3⟩ := h3
+  have hval : ∃ v, s.outcome = some (.value v) ∧ v.isExc = false := by
+    have := fact (fun s => match s.outcome with | some (.value v) => !v.isExc | _ => false) (by decide +kernel)
+    cases ho : s.outcome with
+    | none => simp [ho] at this
+    | some o => cases o <;> simp [ho] at this; exact ⟨_, rfl, this⟩
+  obtain ⟨v, hv, hnev⟩ := hval
+  have a1 := C10_contained_failure_has_no_value demoOne demoOneVal demoOne_oneP demoOneVal_solution s hr 1 e he
+  have a3 := C10_results_agree demoOne demoOneVal demoOne_oneP demoOneVal_solution s hr 3 v3 hv3 hne3
+  refine ⟨s, hs, hr, ⟨e, he, a1.1⟩, ⟨v3, hv3, a3.1, ?_⟩, v, hv,
+    C10_returned_value demoOne demoOneVal demoOne_oneP demoOneVal_solution s hr v hv hnev⟩
+  -- the head's value is the second candidate's: the first has none
+  obtain ⟨pre, c, post, hc, hpre, hcv⟩ :=
+    C10_head_value_is_first_success demoOne demoOneVal demoOne_oneP demoOneVal_solution s hr 3 (by decide) v3 hv3 hne3
+  have h32 : demoOneVal 3 = demoOneVal 2 := by decide
+  rw [← h32]; exact a3.1
 
 end MLPE.Eng
